@@ -322,6 +322,8 @@ def check(prop, tier, seed):
         mine = owned(prop, e.get("ev"), clauses)
         if not mine:
             foreign += 1
+            if foreign <= 5:
+                log(f"NOTE: event {e.get('ev')} case={e.get('case')} rejected by clauses {clauses} that do not decide {prop} (extension of the specification / another property's clause)")
             continue
         hit = None
         for k in known.get("findings", []):
